@@ -805,9 +805,19 @@ func (f *Frame) execBlock(b *ssa.BasicBlock) {
 	}
 }
 
+func (m *Machine) checkDeadline(where string) {
+	if !m.deadline.IsZero() && time.Now().After(m.deadline) {
+		panic(notEncoded("executor deadline exceeded in %s", where))
+	}
+}
+
 func (m *Machine) feasible(g *Term) Result {
+	m.checkDeadline("feasibility query")
 	m.flushNP()
 	m.feasN++
+	if m.trace {
+		fmt.Fprintf(os.Stderr, "  [feasibility query #%d in %s]\n", m.feasN, m.stack[len(m.stack)-1].Name())
+	}
 	r, _ := m.solver.Check([]*Term{g}, false, nil)
 	return r
 }
@@ -864,28 +874,47 @@ func (m *Machine) flushNP() {
 		conds = append(conds, p.c)
 		uniq = append(uniq, p)
 	}
+	_ = conds
+	m.dischargeNP(uniq)
+}
+
+// dischargeNP: one query for the whole batch; on failure bisect so that the
+// reachable panics are isolated with O(k log n) queries.
+func (m *Machine) dischargeNP(list []npRec) {
+	if len(list) == 0 {
+		return
+	}
+	if len(list) == 1 {
+		p := list[0]
+		m.checkVC(p.class, p.label, p.pos, p.c)
+		m.solver.Assert(Not(p.c))
+		m.assumeN++
+		return
+	}
 	start := time.Now()
+	var conds []*Term
+	for _, p := range list {
+		conds = append(conds, p.c)
+	}
 	any := Or(conds...)
 	res, _ := m.solver.Check([]*Term{any}, false, nil)
 	ms := float64(time.Since(start).Microseconds()) / 1000
 	if res == Unsat {
-		for _, p := range uniq {
-			m.vcs = append(m.vcs, &VC{Harness: m.harness, Class: p.class, Label: p.label, Pos: p.pos, Result: "unsat", Ms: ms / float64(len(uniq)), Size: p.c.Size(), Batched: len(uniq)})
+		for _, p := range list {
+			m.vcs = append(m.vcs, &VC{Harness: m.harness, Class: p.class, Label: p.label, Pos: p.pos, Result: "unsat", Ms: ms / float64(len(list)), Size: p.c.Size(), Batched: len(list)})
 		}
 		m.solver.Assert(Not(any))
 		m.assumeN++
 		return
 	}
-	// some panic is reachable (or unknown, or KF regions exist): decide one by one, in order
-	for _, p := range uniq {
-		m.checkVC(p.class, p.label, p.pos, p.c)
-		m.solver.Assert(Not(p.c))
-		m.assumeN++
-	}
+	h := len(list) / 2
+	m.dischargeNP(list[:h])
+	m.dischargeNP(list[h:])
 }
 
 // checkVC decides that bad is unsatisfiable together with the assumptions.
 func (m *Machine) checkVC(class, label, pos string, bad *Term) *VC {
+	m.checkDeadline("VC " + label)
 	if class != "no-panic" {
 		m.flushNP()
 	}
